@@ -1476,6 +1476,13 @@ def run_opts_case(ctx, rep, case, budget, tcases=None):
                 return 'raise-mismatch'
             regimes.add('options-rejected')
             continue
+        if tcases is not None:
+            o = eff if kind != 'container' else {'status': False, 'iterations': False, 'include_internal': True}
+            cols = [x for x in names if o['include_internal'] or not x.startswith('_')] + \
+                (['status'] if o['status'] else []) + (['iterations'] if o['iterations'] else [])
+            tcases.append((dict(m=case['m'], pref=pref, names=names, **o), cols,
+                           ','.join(str(c) for c in out.columns) if out is not None else '!' + str(xerr),
+                           dict(case, options=kw)))
         regime = export_oracle(rep, case, m, pref, base, out, xerr, True, prefix='export-opts')
         regimes.add(regime)
         if regime not in ('ok', 'outside-guard'):
@@ -1494,12 +1501,6 @@ def run_opts_case(ctx, rep, case, budget, tcases=None):
             if out.shape[1] != len(names) - (0 if eff['include_internal'] else len(internal)) + eff['status'] + eff['iterations']:
                 rep.violate('export-opts-shape', f'{where} with use_aliases=True has {out.shape[1]} columns for names {names}', case)
                 return 'shape'
-        if tcases is not None:
-            o = eff if kind != 'container' else {'status': False, 'iterations': False, 'include_internal': True}
-            cols = [x for x in names if o['include_internal'] or not x.startswith('_')] + \
-                (['status'] if o['status'] else []) + (['iterations'] if o['iterations'] else [])
-            tcases.append((dict(m=case['m'], pref=pref, names=names, **o), cols,
-                           ','.join(str(c) for c in out.columns) if out is not None else '!' + str(xerr), case))
     return 'export-' + '+'.join(sorted(regimes))
 
 
@@ -1526,8 +1527,7 @@ def check_export_opts(ctx, rep, rng, count, budget=None):
         outs = ctx.drive([line('alias_rename_opts', c) for c, _, _, _ in tcases])
         for (c, cols, impl, case), a in zip(tcases, outs):
             if not same_columns(dict(c['m']), c['pref'], cols, a, impl):
-                rep.disagree('AliasMixin.to_dataframe(use_aliases=True, **options) columns: model != impl',
-                             dict(case, options={k: c[k] for k in OPT_FLAGS}), a, impl)
+                rep.disagree('AliasMixin.to_dataframe(use_aliases=True, **options) columns: model != impl', case, a, impl)
 
 
 # ---------------------------------------------------------------------------------------------------------------
@@ -1729,7 +1729,7 @@ def probe_names(a, t, m, universe):
             ra = ('exc', exc_name(got)) if isinstance(got, Exception) else ('ok', fingerprint(got))
             if ra != rt:
                 hit = [v for v in a.index if isinstance(got, np.ndarray) and got is a.__dict__.get('_' + v)]
-                return nm, f'{nm!r} is no alias in this instance\'s class (it resolves to {want!r}) but reading it gives ' + (
+                return nm, f'{nm!r} is no alias in the map this instance was created with (it resolves to {want!r}) but reading it gives ' + (
                     f'the variable {hit[0]!r}' if hit else short(ra)) + f'; the twin: {short(rt)}'
     return None
 
